@@ -75,6 +75,36 @@ def make_value(ty: str):
 _et_counter = [0]
 DEFAULT_NAMES = [0, 0, 1]          # cases without a "names" field (corpus, exhaustive): types 0 and 1 share their name
 NAME_PATTERNS = [[0, 0, 1], [0, 1, 1], [0, 1, 0], [0, 0, 0], [0, 1, 2]]
+DEFAULT_LKINDS = ["len", "false", "plain", "len"]      # cases without a "lkinds" field (corpus, exhaustive)
+DICT_SUBS = ["od", "dd", "counter", "missing:TInt", "missing:TStr", "missing:TBase"]
+
+
+class MissingDict(dict):
+    """a dict subclass that answers for absent keys"""
+    def __init__(self, items, default):
+        super().__init__(items)
+        self._default = default
+
+    def __missing__(self, key):
+        return self._default
+
+
+def make_dict(items, sub):
+    """the payload dict of the given flavour; its keys are exactly those of items"""
+    if sub in (None, "dict"):
+        return dict(items)
+    if sub == "od":
+        return collections.OrderedDict(items)
+    if sub == "dd":
+        return collections.defaultdict(int, items)
+    if sub == "counter":
+        c = collections.Counter()
+        for k, v in items:
+            c[k] = v
+        return c
+    if sub.startswith("missing:"):
+        return MissingDict(items, make_value(sub.split(":")[1]))
+    raise ValueError(sub)
 _site_cache = {}
 
 
@@ -111,7 +141,18 @@ class Ctx:
             def notify(self, event):
                 ctx.on_notify(self, event)
 
-        self.listeners = [Lis(i, s) for i, s in enumerate(case["scripts"])]
+        class LisLen(Lis):
+            """a buffering listener: its length is the number of programs it still holds (0 once drained)"""
+            def __len__(self):
+                return len(self.scripts)
+
+        class LisFalse(Lis):
+            def __bool__(self):
+                return False
+
+        # case["lkinds"][l]: "plain" | "len" | "false" - a listener is a listener whatever its truth value
+        kinds = case.get("lkinds") or DEFAULT_LKINDS[:len(case["scripts"])]
+        self.listeners = [{"plain": Lis, "len": LisLen, "false": LisFalse}[kinds[i]](i, s) for i, s in enumerate(case["scripts"])]
         self.trace = []
         self.keep = []          # payload objects kept alive; identity -> tag
         self.ident = {}
@@ -137,7 +178,7 @@ class Ctx:
         tag = c["tag"]
         if "dict" in c:
             items = [(KEYS[k], make_value(t)) for k, t in c["dict"]]
-            obj = collections.OrderedDict(items) if c.get("od") else dict(items)
+            obj = make_dict(items, "od" if c.get("od") else c.get("sub"))
         else:
             t = c["nondict"]
             obj = {"TObject": object, "TInt": lambda: 1000 + tag, "TBool": lambda: bool(tag),
@@ -445,6 +486,7 @@ def run_ctor(cases):
         ctx = Ctx.__new__(Ctx)
         ctx.keep, ctx.ident = [], {}
         payload = Ctx.payload(ctx, c)
+        keys_before = list(payload.keys()) if isinstance(payload, dict) else None
         try:
             if ts is None:
                 e = ps.Event(et, payload, chk)
@@ -459,6 +501,8 @@ def run_ctor(cases):
             out.append(False)
         except Exception as exc:  # noqa
             out.append("other:" + type(exc).__name__)
+        if keys_before is not None and list(payload.keys()) != keys_before and out[-1] in (True, False):
+            out[-1] = "other:payload-mutated"       # constructing an event must not change the payload it is given
     return out
 
 
@@ -533,8 +577,11 @@ class Gen:
                 return {"tag": 0 if t == "TNone" else self.fresh(), "nondict": t}
         r.shuffle(items)
         c = {"tag": self.fresh(), "dict": items}
-        if r.random() < 0.1:
+        x = r.random()
+        if x < 0.08:
             c["od"] = True
+        elif x < 0.3:
+            c["sub"] = r.choice(DICT_SUBS[1:])
         return c
 
     def ts(self):
@@ -633,7 +680,8 @@ class Gen:
             ops.append(["has", p])
             for et in range(N_ET):
                 ops.append(["fire", p, et, self.content(env[et], 0.0), True])
-        return {"env": env, "scripts": scripts, "ops": ops, "names": list(r.choice(NAME_PATTERNS))}
+        return {"env": env, "scripts": scripts, "ops": ops, "names": list(r.choice(NAME_PATTERNS)),
+                "lkinds": [r.choice(["plain", "plain", "len", "len", "false"]) for _ in range(N_LIS)]}
 
 
 def exhaustive_cases(max_len: int):
@@ -678,7 +726,18 @@ def ctor_space(tier: str, rng: random.Random):
     if len(full) > limit:
         # keep every (metadata, check) x shape class at least once, sample the rest
         full = rng.sample(full, limit)
-    return full + timed
+    # dict SUBCLASSES as payloads (OrderedDict, defaultdict, Counter, a dict with __missing__): they are dicts with exactly
+    # their own keys - a declared key that is absent is absent, whatever the subclass would answer for it
+    subs = []
+    smds = [[[0, "TInt"]], [[0, "TInt"], [1, "TInt"]], [[0, "TObject"]], [[0, "TInt"], [1, "TStr"]], [[0, "TBase"], [1, "TInt"]]]
+    skeys = ([0], [2], [0, 1], [0, 2], [2, 1], [2, 3], [1, 0])
+    for md in smds:
+        for keys in skeys:
+            for vals in ([["TInt"] * len(keys), ["TStr"] * len(keys)] + ([["TInt", "TStr"], ["TBase", "TInt"]] if len(keys) == 2 else [])):
+                for sub in DICT_SUBS:
+                    for chk in (True, False):
+                        subs.append((md, None, {"tag": 5, "dict": [[k, v] for k, v in zip(keys, vals)], "sub": sub}, chk))
+    return full + timed + subs
 
 
 # ------------------------------------------------------------------ shrinking
@@ -1010,7 +1069,9 @@ def main(tier: str) -> int:
                        "EventBasedCounter / EventBasedTally objects, several with the same name and (when subscribed / unsubscribed) the same state, "
                        "judged by a reference map that identifies a listener by object identity, deliveries read off each object's n() / count() "
                        "(monitor only, not run through the Gallina model); in the op sequences event types of one case may share their name "
-                       "(defined at different sites); "
+                       "(defined at different sites), listeners may be falsy objects (__len__ = programs left, or __bool__ False), dict payloads "
+                       "may be dict subclasses (OrderedDict, defaultdict, Counter, a dict with __missing__; also a dedicated block of the "
+                       "construction space), and a construction must leave its payload's keys as they were; "
                        "non-trivial = distinct op-sequence case containing a completely delivered fire with >= 2 subscribers at the moment of "
                        "firing during which listener programs changed the subscriber list of that event type or fired again")
     run.cov["op_histogram"] = dict(op_hist)
@@ -1066,11 +1127,13 @@ def main(tier: str) -> int:
                 note = ("fails only after earlier cases ran in the same interpreter (state leaks between EventProducer "
                         "instances / cases); on a fresh interpreter this input alone passes")
         small.setdefault("names", DEFAULT_NAMES[:len(small["env"])])     # say in the replay which types share a name
+        small.setdefault("lkinds", DEFAULT_LKINDS[:len(small["scripts"])])
         tr, f, _ = run_impl(small)
         what = ([w for s_, w in f if s_ == sig] or [findings[0][1]])[0]
         rep = {"case": small, "impl_observations": tr,
                "how": "harness/c08.py run_impl(case): env = metadata per event type (type i is defined at site i; names[i] = its "
-                      "name group: types of one group have the same name, declared in different classes), scripts[l] = programs listener l "
+                      "name group: types of one group have the same name, declared in different classes), lkinds[l] = kind of listener l "
+                      "(plain | len: __len__ = number of programs left | false: __bool__ False), scripts[l] = programs listener l "
                       "performs on its successive notifications, ops = outermost calls; every op names the producer "
                       "(second field) it is called on; ./check C08 --replay <this file> re-runs it"}
         if note:
@@ -1079,7 +1142,8 @@ def main(tier: str) -> int:
     if ctor_bad:
         impl_fail = True
         (md, ts, c, chk), acc, exp = ctor_bad
-        sig = "event-accepted-wrongly" if acc is True else ("event-rejected-wrongly" if acc is False else "constructor-unexpected-exception")
+        sig = "event-accepted-wrongly" if acc is True else ("event-rejected-wrongly" if acc is False else
+                                                           ("payload-mutated" if acc == "other:payload-mutated" else "constructor-unexpected-exception"))
         run.violation(sig, f"{'TimedEvent' if ts else 'Event'}(metadata={md}, timestamp={ts}, content={c}, check={chk}): "
                            f"implementation accepted={acc}, property's rule says accepted={exp}",
                       {"metadata": md, "timestamp": ts, "content": c, "check": chk, "impl_accepted": acc, "expected_accepted": exp})
